@@ -148,6 +148,11 @@ func (e *Engine) check(mux bool, pkts []pkt, st *sim.Stream, strict bool) (oc *o
 	return nil
 }
 
+// isIPFrame is the SLIPMUX draft's own definition (not the implementation's
+// helper): an IPv4 packet starts with 0x45..0x4f, an IPv6 packet with 0x60..0x6f;
+// only those are sent without a frame byte.
+func isIPFrame(f byte) bool { return (f >= 0x45 && f <= 0x4f) || (f >= 0x60 && f <= 0x6f) }
+
 // faultWriter is the sender's transport: Write call number failAt fails with
 // (0, error) and writes nothing.
 type faultWriter struct {
@@ -231,6 +236,9 @@ func (e *Engine) Run(t *tape.Tape, keep bool) *sim.Result {
 				if f%8 == 0 {
 					// frame types that look like the escape codes
 					f = []byte{slipb.ESC_END, slipb.ESC_ESC}[int(f/8)%2]
+				} else if f%8 == 1 {
+					// the neighbours of the IP ranges and of the CoAP frame type
+					f = []byte{0x40, 0x44, 0x45, 0x4f, 0x50, 0x5f, 0x60, 0x6f, 0x70, 0xa8, 0xaa, 0x01, 0xff}[int(f/8)%13]
 				}
 			case 1:
 				f = slipb.FRAME_COAP
@@ -247,7 +255,7 @@ func (e *Engine) Run(t *tape.Tape, keep bool) *sim.Result {
 				min = 4
 			}
 			p := genPayload(t, min)
-			if slipb.IsIpFrame(f) {
+			if isIPFrame(f) {
 				p[0] = f // IP frames are not prepended: the payload's first byte is the frame byte
 			}
 			pkts[i] = pkt{f, p}
